@@ -198,3 +198,14 @@ Lemma rd_s_app_l n bo d t a : 0 <= a -> a + Z.of_nat n <= zlen d -> rd_s n bo (d
 Proof. intros. unfold rd_s. rewrite slice_app_l by lia. reflexivity. Qed.
 Lemma rd_s_app_r n bo p d a : 0 <= a -> a + Z.of_nat n <= zlen d -> rd_s n bo (p ++ d) (zlen p + a) = rd_s n bo d a.
 Proof. intros. unfold rd_s. rewrite <- Z.add_assoc. rewrite slice_app_r by lia. reflexivity. Qed.
+
+Lemma slice_0 {A} (d : list A) n : 0 <= n -> slice d 0 n = firstn (Z.to_nat n) d.
+Proof.
+  intros Hn. unfold slice, norm_idx. pose proof (zlen_nonneg d).
+  destruct (Z.ltb_spec n 0); [lia|]. cbn [Z.ltb Z.compare].
+  rewrite (Z.min_l 0) by lia. cbn [Z.to_nat skipn]. rewrite Z.sub_0_r.
+  destruct (Z.le_ge_cases n (zlen d)).
+  - rewrite Z.min_l by lia. reflexivity.
+  - rewrite Z.min_r by lia. unfold zlen. rewrite Nat2Z.id.
+    rewrite !firstn_all2; auto. unfold zlen in *. lia.
+Qed.
